@@ -550,3 +550,60 @@ Proof.
   - rewrite B2, B0 by assumption. cbn [gain_poly]. now rewrite Ha.
   - rewrite B3, B0 by assumption. cbn [gain_poly]. rewrite Hc0. change (zrange 1) with [0]. cbn [map]. now rewrite Hc.
 Qed.
+
+(* ====================================================================================
+   refusals of the charge collection entry points (which inputs raise, and what)
+   ==================================================================================== *)
+Section CollectRefuse.
+Variable S : Scalar.
+
+(* assert qe.size == wave.size *)
+Lemma collect_vector_length_refused (img : imgrep S) nw (v : vec S) : vn v <> nw ->
+  collect_charge img nw (QVec v) = Err AssertionErr.
+Proof. intros H. unfold collect_charge. cbn [qe_asarray]. replace (vn v =? nw) with false by lia. reflexivity. Qed.
+
+(* einsum: the number of slices and the number of wavelengths differ and neither is 1 *)
+Lemma collect_slice_count_refused (img : imgrep S) nw (q : qerep S) (v : vec S) :
+  qe_asarray q nw = Ok v -> cnk (as_cube img) <> nw -> cnk (as_cube img) <> 1 -> nw <> 1 ->
+  collect_charge img nw q = Err ValueError.
+Proof. intros Hq H1 H2 H3. unfold collect_charge. rewrite Hq. cbn [rbind]. unfold einsum_ki.
+  rewrite (qe_asarray_vn S _ _ _ Hq), bdim_err by assumption. reflexivity. Qed.
+
+(* the efficiencies are looked at first (red, green, blue), then the pattern string *)
+Lemma bayer_refusal_order (img : imgrep S) nw (qr qg qb : qerep S) pat os :
+  (forall e, qe_asarray qr nw = Err e -> collect_charge_bayer_channels img nw qr qg qb pat os = Err e) /\
+  (forall vr e, qe_asarray qr nw = Ok vr -> qe_asarray qg nw = Err e ->
+     collect_charge_bayer_channels img nw qr qg qb pat os = Err e) /\
+  (forall vr vg e, qe_asarray qr nw = Ok vr -> qe_asarray qg nw = Ok vg -> qe_asarray qb nw = Err e ->
+     collect_charge_bayer_channels img nw qr qg qb pat os = Err e) /\
+  (forall vr vg vb e, qe_asarray qr nw = Ok vr -> qe_asarray qg nw = Ok vg -> qe_asarray qb nw = Ok vb ->
+     format_bayer pat = Err e -> collect_charge_bayer_channels img nw qr qg qb pat os = Err e).
+Proof. unfold collect_charge_bayer_channels. repeat split; intros.
+  - now rewrite H.
+  - now rewrite H, H0.
+  - now rewrite H, H0, H1.
+  - now rewrite H, H0, H1, H2.
+Qed.
+
+(* a frame that is not made of whole tiles of pattern*oversample cannot be multiplied with the mosaic *)
+Lemma bayer_frame_not_tiled_refused (img : imgrep S) nw (qr qg qb : qerep S) (vr vg vb : vec S) pat p os :
+  cnk (as_cube img) = nw ->
+  qe_asarray qr nw = Ok vr -> qe_asarray qg nw = Ok vg -> qe_asarray qb nw = Ok vb ->
+  format_bayer pat = Ok p -> 1 <= pk p -> 1 <= os ->
+  let c := as_cube img in
+  let mr := pk p * (cnr c / os / pk p) * os in let mc := pk p * (cnc c / os / pk p) * os in
+  (cnr c <> mr /\ cnr c <> 1 /\ mr <> 1) \/ (cnc c <> mc /\ cnc c <> 1 /\ mc <> 1) ->
+  collect_charge_bayer_channels img nw qr qg qb pat os = Err ValueError.
+Proof.
+  intros Hk Hqr Hqg Hqb Hpat Hp Ho c mr mc H.
+  unfold collect_charge_bayer_channels. rewrite Hqr, Hqg, Hqb, Hpat. cbn [rbind].
+  replace ((os <? 1) || (pk p <? 1)) with false by lia. cbv zeta. fold c.
+  assert (cnk c = vn vr) as Hv by (rewrite (qe_asarray_vn S _ _ _ Hqr); exact Hk).
+  unfold channel_e at 1. destruct (einsum_ki_ok S c vr Hv) as (e & E1 & E2 & E3 & _). rewrite E1. cbn [rbind].
+  unfold bmul. cbn [mosaic repeat2 tile kernel nr nc]. rewrite E2, E3. fold mr mc.
+  destruct H as [(A & B & C0)|(A & B & C0)].
+  - rewrite (bdim_err (cnr c) mr) by assumption. reflexivity.
+  - destruct (bdim (cnr c) mr) eqn:E; cbn [rbind]; [|now rewrite (bdim_err_kind _ _ _ E)].
+    rewrite (bdim_err (cnc c) mc) by assumption. reflexivity.
+Qed.
+End CollectRefuse.
